@@ -22,6 +22,7 @@ import (
 	"sync/atomic"
 	"time"
 
+	"go.nanomsg.org/mangos/v3/internal/verifyield"
 	"go.nanomsg.org/mangos/v3/protocol"
 )
 
@@ -186,6 +187,7 @@ func (p *pipe) Close() {
 
 func (c *context) resendMessage(id uint32) {
 	s := c.s
+	verifyield.Point("req.resendMessage")
 	s.Lock()
 	defer s.Unlock()
 	if c.reqID == id && c.reqMsg != nil {
